@@ -55,7 +55,7 @@ func init() { Register(c02{}) }
 func (c02) ID() string       { return "C02" }
 func (c02) New() interface{} { return &C02Case{} }
 func (c02) Rule() string {
-	return "each run: an alignment of 1-10 rows whose length is drawn from the widths that straddle every writer line and block (10, 50, 60, 80, their neighbours and multiples) or at random, nucleotide or protein IUPAC residues in both cases with '-', '*', '?', names of 1-14 printable non-blank characters that the formats of the run can represent (<= 10 for strict Phylip; all-digit names included), and one of seven modes: single (writer -> simulated stream -> parser), chain (2-4 formats in a row), file (utils.OpenWriteFile -> real temp file, plain/.gz/.xz, fresh or already holding 1-120000 bytes of an earlier output -> utils.ReadAlign / GetReader), gzstream (gzip bytes through the simulated stream and GetReaderFromReader), auto (format detection), multifile (2-5 Phylip alignments of sizes on both sides of 4096 bytes written one after the other to one plain/.gz/.xz file and read back with ParseMultiAlignmentsAuto), multi (1-25 Phylip alignments in one stream through ParseMultiAlignmentsAuto with the parser goroutine, every read of the simulated file, the consumer and the close under the seeded scheduler; in 3 runs of 10 a second stream - the same alignments in reverse order - is parsed by another goroutine in the same schedule). Distinct = distinct (mode, formats and options, alignment shape, fragment plan or schedule hash); non-trivial = the alignment has at least 2 rows and 2 columns, or the stream holds at least 2 alignments."
+	return "each run: an alignment of 1-10 rows (95-140 in one run of a hundred) whose length is drawn from the widths that straddle every writer line and block (10, 50, 60, 80, their neighbours and multiples) or at random, nucleotide or protein IUPAC residues in both cases with '-', '*', '?', names of 1-14 printable non-blank characters that the formats of the run can represent (<= 10 for strict Phylip; all-digit names included), and one of seven modes: single (writer -> simulated stream -> parser), chain (2-4 formats in a row), file (utils.OpenWriteFile -> real temp file, plain/.gz/.xz, fresh or already holding 1-120000 bytes of an earlier output -> utils.ReadAlign / GetReader), gzstream (gzip bytes through the simulated stream and GetReaderFromReader), auto (format detection), multifile (2-5 Phylip alignments of sizes on both sides of 4096 bytes written one after the other to one plain/.gz/.xz file and read back with ParseMultiAlignmentsAuto), multi (1-25 Phylip alignments in one stream through ParseMultiAlignmentsAuto with the parser goroutine, every read of the simulated file, the consumer and the close under the seeded scheduler; in 3 runs of 10 a second stream - the same alignments in reverse order - is parsed by another goroutine in the same schedule). Distinct = distinct (mode, formats and options, alignment shape, fragment plan or schedule hash); non-trivial = the alignment has at least 2 rows and 2 columns, or the stream holds at least 2 alignments."
 }
 
 // gzipMembers compresses the text as k gzip members, cut at line ends where there are any (RFC 1952: the content
@@ -274,6 +274,18 @@ func (c02) Gen(rs uint64, tier string, race bool) interface{} {
 		}
 	} else {
 		c.Alns = []AlnSpec{genIOAln(r, fs, 10, 200)}
+		if r.Chance(0.01) {
+			// many rows: beyond the first capacity of the tables the parsers keep per row
+			for tall := genIOAln(r, fs, 140, 130); ; tall = genIOAln(r, fs, 140, 130) {
+				if len(tall.Names) >= 95 {
+					c.Alns[0] = tall
+					break
+				}
+			}
+			if c.Plan.Mode == FragOne {
+				c.Plan.Mode = FragSmall
+			}
+		}
 	}
 	return c
 }
